@@ -444,7 +444,7 @@ STUBS = {
 def _io(st, *e): st.world['io'] = st.world.get('io', ()) + (tuple(e),)
 
 
-@model(r'^<impl Read \+ Write \+ Unpin as (std::io::)?Read>::read$', r'^<&mut impl Read \+ Write \+ Unpin as (std::io::)?Read>::read$')
+@model(r'^<impl Read \+ Write \+ Unpin as (std::io::)?Read>::read$', r'^<&mut impl Read \+ Write \+ Unpin as (std::io::)?Read>::read$', r'^<(&mut )*(impl [^>]*|[A-Z]\w{0,2}|std::net::TcpStream|TcpStream) as (std::io::)?Read>::read$')
 def m_stream_read(ex, st, c):
     cfg = st.world.get('stream')
     if cfg is None: raise Unsupported('stream read without a stream model')
@@ -470,7 +470,7 @@ class _IoEv:
     def __init__(s, e, v): s.e = e; s.v = v
 
 
-@model(r'^<impl Read \+ Write \+ Unpin as (std::io::)?Write>::write$')
+@model(r'^<impl Read \+ Write \+ Unpin as (std::io::)?Write>::write$', r'^<(&mut )*(impl [^>]*|[A-Z]\w{0,2}|std::net::TcpStream|TcpStream) as (std::io::)?Write>::write$')
 def m_stream_write(ex, st, c):
     cfg = st.world.get('stream')
     data = D(ex, st, c.args[1])
@@ -486,7 +486,7 @@ def m_stream_write(ex, st, c):
     return Fork([(fail, _IoEv(('write_err', data), Err(io_error()))), (okc, _IoEv(('write', data, k), Ok(usize(k))))])
 
 
-@model(r'^<impl Read \+ Write \+ Unpin as (std::io::)?Write>::write_all$')
+@model(r'^<impl Read \+ Write \+ Unpin as (std::io::)?Write>::write_all$', r'^<(&mut )*(impl [^>]*|[A-Z]\w{0,2}|std::net::TcpStream|TcpStream) as (std::io::)?Write>::write_all$')
 def m_stream_write_all(ex, st, c):
     cfg = st.world.get('stream')
     data = D(ex, st, c.args[1])
@@ -497,7 +497,7 @@ def m_stream_write_all(ex, st, c):
     return Fork([(fail, _IoEv(('write_err', data), Err(io_error()))), (z3.Not(fail), _IoEv(('write', data, n), Ok(UNIT)))])
 
 
-@model(r'^<impl Read \+ Write \+ Unpin as (std::io::)?Write>::flush$')
+@model(r'^<impl Read \+ Write \+ Unpin as (std::io::)?Write>::flush$', r'^<(&mut )*(impl [^>]*|[A-Z]\w{0,2}|std::net::TcpStream|TcpStream) as (std::io::)?Write>::flush$')
 def m_stream_flush(ex, st, c):
     cfg = st.world.get('stream')
     if cfg.get('flush_mode', 'arbitrary') == 'ok': return _IoEv(('flush', True), Ok(UNIT))
